@@ -210,6 +210,9 @@ func workerExplore(t *testing.T, pd *PropDef) {
 				rep.Probes[probeNames[k]] += v
 			}
 		}
+		if run.Discard == "" {
+			reachOf(run, reachCounter(rep.Probes))
+		}
 		if run.Obligations > 0 {
 			rep.Nontrivial++
 			rep.Obligations += run.Obligations
